@@ -196,3 +196,665 @@ Proof.
     rewrite fmap_app in Hc. apply elem_of_app in Hc as [Hc|Hc]; [exact Hc|]. simpl in Hc.
     apply elem_of_list_singleton in Hc. congruence.
 Qed.
+(* ---------------------------------------------------------------------------------------------------------- *)
+(* record actions *)
+Definition known (tb : table) (cv : name * list val) : Prop := is_Some (t_cols tb !! cv.1).
+
+Lemma known_prefix_all tb vals : Forall (known tb) vals -> known_prefix tb vals = vals.
+Proof.
+  induction 1 as [|cv vals [col H] _ IH]; [reflexivity|]. simpl. rewrite H. f_equal. exact IH.
+Qed.
+
+Lemma known_prefix_len tb vals : length (known_prefix tb vals) = length vals -> Forall (known tb) vals.
+Proof.
+  induction vals as [|cv vals IH]; intros H; [constructor|]. simpl in H.
+  destruct (t_cols tb !! cv.1) eqn:E; [|discriminate]. simpl in H. constructor; [eexists; exact E|].
+  apply IH. congruence.
+Qed.
+
+Lemma exec_all_snoc_fail st l : exec_all st (l ++ [MFail]) = None.
+Proof. rewrite exec_all_app. destruct (exec_all st l); reflexivity. Qed.
+
+Definition update_undo (tb : table) (rows : list rowid) (vals : list (name * list val)) : list (name * list val) :=
+  omap (fun cv => (fun col => (cv.1, map (cget col) rows)) <$> t_cols tb !! cv.1) vals.
+
+Lemma exec_update ord d t tb rows vals u p s st' :
+  d_tables d !! t = Some tb ->
+  exec_all (MState d u p s) (steps_of ord d (BulkUpdateRecord t rows vals)) = Some st' ->
+  Forall (fun r => r ∈ t_rows tb) rows /\ Forall (known tb) vals /\
+  st' = MState (tset t (write_cols rows vals tb) d) (u ++ [BulkUpdateRecord t rows (update_undo tb rows vals)]) p s.
+Proof.
+  intros Ht. unfold steps_of. rewrite Ht. destruct (bool_decide (Forall _ rows)) eqn:Er; [|discriminate].
+  apply bool_decide_eq_true in Er. unfold update_steps.
+  destruct (bool_decide (length (known_prefix tb vals) = length vals)) eqn:Ek.
+  - apply bool_decide_eq_true in Ek. apply known_prefix_len in Ek. rewrite (known_prefix_all _ _ Ek).
+    rewrite exec_write_cols. simpl. intros [= <-]. split; [exact Er|]. split; [exact Ek|].
+    unfold on_doc. simpl. rewrite (upd_table_tset _ _ _ _ Ht). reflexivity.
+  - rewrite exec_all_snoc_fail. discriminate.
+Qed.
+
+(* BulkAddRecord *)
+Lemma exec_add ord d t tb rows vals u p s st' :
+  d_tables d !! t = Some tb ->
+  exec_all (MState d u p s) (steps_of ord d (BulkAddRecord t rows vals)) = Some st' ->
+  Forall (fun r => r ∉ t_rows tb) rows /\ Forall (known tb) vals /\
+  st' = MState (tset t (write_cols rows vals (set_rows (fun rs => list_to_set rows ∪ rs) tb)) d)
+               (u ++ [BulkRemoveRecord t rows]) p s.
+Proof.
+  intros Ht. unfold steps_of. rewrite Ht. destruct (bool_decide (Exists _ rows)) eqn:Er; [discriminate|].
+  apply bool_decide_eq_false in Er. assert (Hr : Forall (fun r => r ∉ t_rows tb) rows).
+  { apply Forall_forall. intros r Hin Hmem. apply Er. apply Exists_exists. eauto. }
+  unfold add_records_steps. simpl.
+  destruct (bool_decide (length (known_prefix tb vals) = length vals)) eqn:Ek.
+  - apply bool_decide_eq_true in Ek. apply known_prefix_len in Ek. rewrite (known_prefix_all _ _ Ek).
+    rewrite exec_add_rows. rewrite app_nil_r. rewrite <- (app_nil_r (concat _)). rewrite exec_write_cols. simpl.
+    intros [= <-]. split; [exact Hr|]. split; [exact Ek|]. unfold on_doc. simpl.
+    rewrite upd_table_compose. rewrite (upd_table_tset _ _ _ _ Ht). reflexivity.
+  - rewrite exec_add_rows, exec_all_snoc_fail. discriminate.
+Qed.
+
+(* BulkRemoveRecord *)
+Definition remove_tb (ord : name -> list name) (t : name) (tb : table) (rows' : list rowid) : table :=
+  write_cols rows' (unset_values tb (cols_in_order ord t tb) rows')
+             (set_rows (fun rs => rs ∖ list_to_set rows') tb).
+
+Lemma exec_remove ord d t tb rows u p s st' :
+  d_tables d !! t = Some tb ->
+  exec_all (MState d u p s) (steps_of ord d (BulkRemoveRecord t rows)) = Some st' ->
+  let rows' := filter (fun r => r ∈ t_rows tb) rows in
+  (rows' = [] /\ st' = MState d u p s) \/
+  (rows' ≠ [] /\ st' = MState (tset t (remove_tb ord t tb rows') d)
+                              (u ++ [remove_undo t tb (cols_in_order ord t tb) rows']) p s).
+Proof.
+  intros Ht. unfold steps_of. rewrite Ht. simpl.
+  destruct (filter (fun r => r ∈ t_rows tb) rows) as [|r0 rows'] eqn:E.
+  - simpl. intros [= <-]. left. split; reflexivity.
+  - rewrite exec_del_rows, exec_write_cols. simpl. intros [= <-]. right. split; [discriminate|].
+    unfold on_doc. simpl. rewrite upd_table_compose. rewrite (upd_table_tset _ _ _ _ Ht). reflexivity.
+Qed.
+(* ---------------------------------------------------------------------------------------------------------- *)
+(* well-formedness of explicit forms *)
+Lemma wf_table_delete sc tb c :
+  wf_table sc tb -> wf_table (delete c sc) {| t_rows := t_rows tb; t_cols := delete c (t_cols tb) |}.
+Proof.
+  intros [Hd H]. split; simpl.
+  - rewrite !dom_delete_L, Hd. reflexivity.
+  - apply map_Forall_lookup. intros c' col Hc. apply lookup_delete_Some in Hc as [Hne Hc].
+    destruct (proj1 (map_Forall_lookup _ _) H _ _ Hc) as [H1 H2]. split; [|exact H2].
+    rewrite lookup_delete_ne by auto. exact H1.
+Qed.
+
+Lemma wf_table_insert sc tb c ci col :
+  wf_table sc tb -> c_info col = ci -> wf_col (t_rows tb) col ->
+  wf_table (<[c := ci]> sc) {| t_rows := t_rows tb; t_cols := <[c := col]> (t_cols tb) |}.
+Proof.
+  intros [Hd H] Hi Hw. split; simpl.
+  - rewrite !dom_insert_L, Hd. reflexivity.
+  - apply map_Forall_lookup. intros c' col' Hc. apply lookup_insert_Some in Hc as [[<- <-]|[Hne Hc]].
+    + rewrite lookup_insert. split; [congruence|exact Hw].
+    + rewrite lookup_insert_ne by auto. exact (proj1 (map_Forall_lookup _ _) H _ _ Hc).
+Qed.
+
+Lemma wf_tset d t sc' tb' :
+  wf d -> wf_table sc' tb' ->
+  wf {| d_schema := <[t := sc']> (d_schema d); d_tables := <[t := tb']> (d_tables d) |}.
+Proof.
+  intros [Hd H] Hw. split; simpl.
+  - rewrite !dom_insert_L, Hd. reflexivity.
+  - apply map_Forall_lookup. intros t' tb Ht. apply lookup_insert_Some in Ht as [[<- <-]|[Hne Ht]].
+    + rewrite lookup_insert. exact Hw.
+    + rewrite lookup_insert_ne by auto. exact (proj1 (map_Forall_lookup _ _) H _ _ Ht).
+Qed.
+
+Lemma wf_delete_table d t :
+  wf d -> wf {| d_schema := delete t (d_schema d); d_tables := delete t (d_tables d) |}.
+Proof.
+  intros [Hd H]. split; simpl.
+  - rewrite !dom_delete_L, Hd. reflexivity.
+  - apply map_Forall_lookup. intros t' tb Ht. apply lookup_delete_Some in Ht as [Hne Ht].
+    rewrite lookup_delete_ne by auto. exact (proj1 (map_Forall_lookup _ _) H _ _ Ht).
+Qed.
+
+(* a table whose columns were only written on existing rows stays well-formed *)
+Lemma wf_table_same_schema sc tb tb' :
+  wf_table sc tb -> dom (t_cols tb') = dom (t_cols tb) ->
+  (forall c col', t_cols tb' !! c = Some col' ->
+     exists col, t_cols tb !! c = Some col /\ c_info col' = c_info col /\ wf_col (t_rows tb') col') ->
+  wf_table sc tb'.
+Proof.
+  intros [Hd H] Hdom Hc. split; [congruence|]. apply map_Forall_lookup. intros c col' Hl.
+  destruct (Hc _ _ Hl) as (col & Hcol & Hi & Hw). split; [|exact Hw].
+  rewrite Hi. exact (proj1 (proj1 (map_Forall_lookup _ _) H _ _ Hcol)).
+Qed.
+
+Lemma write_cols_dom rows vals tb : dom (t_cols (write_cols rows vals tb)) = dom (t_cols tb).
+Proof.
+  apply set_eq. intros c. rewrite !elem_of_dom, write_cols_lookup. destruct (t_cols tb !! c); simpl; split; intros [? ?]; eauto; discriminate.
+Qed.
+
+Lemma wf_table_write_cols sc tb rows vals :
+  wf_table sc tb -> (forall r, r ∈ rows -> r ∈ t_rows tb) -> wf_table sc (write_cols rows vals tb).
+Proof.
+  intros Hw Hr. eapply wf_table_same_schema; [exact Hw|apply write_cols_dom|].
+  intros c col' Hl. rewrite write_cols_lookup in Hl. destruct (t_cols tb !! c) as [col|] eqn:E; [|discriminate].
+  simpl in Hl. injection Hl as <-. exists col. split; [reflexivity|]. split; [apply col_writes_info|].
+  rewrite write_cols_rows. apply col_writes_wf; [|exact Hr]. exact (proj2 (wf_table_col _ _ _ _ Hw E)).
+Qed.
+
+(* ---------------------------------------------------------------------------------------------------------- *)
+(* rebuild_usercode *)
+Lemma reuse_col_id ci col : c_info col = ci -> reuse_col ci col = col.
+Proof. intros <-. destruct col as [[]]; reflexivity. Qed.
+
+Lemma rebuild_lookup sch tabs t :
+  d_tables (rebuild {| d_schema := sch; d_tables := tabs |}) !! t = (fun sc => rebuild_table sc (tabs !! t)) <$> sch !! t.
+Proof. unfold rebuild. simpl. rewrite map_lookup_imap. destruct (sch !! t); reflexivity. Qed.
+
+Lemma rebuild_table_lookup sc old c :
+  t_cols (rebuild_table sc old) !! c
+  = (fun ci => from_option (reuse_col ci) (new_col ci) (from_option t_cols ∅ old !! c)) <$> sc !! c.
+Proof. unfold rebuild_table. simpl. rewrite map_lookup_imap. destruct (sc !! c); reflexivity. Qed.
+
+Lemma table_ext tb1 tb2 : t_rows tb1 = t_rows tb2 -> (forall c, t_cols tb1 !! c = t_cols tb2 !! c) -> tb1 = tb2.
+Proof. destruct tb1, tb2. simpl. intros -> H. f_equal. apply map_eq. exact H. Qed.
+
+Lemma rebuild_cols_wf sc tb c :
+  wf_table sc tb ->
+  (fun ci => from_option (reuse_col ci) (new_col ci) (t_cols tb !! c)) <$> sc !! c = t_cols tb !! c.
+Proof.
+  intros Hw. destruct (t_cols tb !! c) as [col|] eqn:E.
+  - destruct (wf_table_col _ _ _ _ Hw E) as [-> _]. simpl. f_equal. apply reuse_col_id. reflexivity.
+  - rewrite (wf_table_col_none _ _ _ Hw E). reflexivity.
+Qed.
+
+Lemma rebuild_table_id sc tb : wf_table sc tb -> rebuild_table sc (Some tb) = tb.
+Proof.
+  intros Hw. apply table_ext; [reflexivity|]. intros c. rewrite rebuild_table_lookup. simpl.
+  apply rebuild_cols_wf. exact Hw.
+Qed.
+
+Lemma rebuild_id d : wf d -> rebuild d = d.
+Proof.
+  intros Hw. destruct d as [sch tabs]. unfold rebuild at 1. simpl. f_equal. apply map_eq. intros t.
+  rewrite map_lookup_imap. destruct (sch !! t) as [sc|] eqn:E; simpl.
+  - destruct (wf_table_of_schema _ _ _ Hw E) as (tb & Ht & Hwt). simpl in Ht. rewrite Ht. f_equal. apply rebuild_table_id. exact Hwt.
+  - symmetry. destruct (tabs !! t) as [tb|] eqn:Et; [|reflexivity].
+    destruct (wf_schema_of_table _ _ _ Hw Et) as (sc & Hs & _). simpl in Hs. congruence.
+Qed.
+
+(* the schema entry of ONE table changed (or appeared) *)
+Lemma rebuild_one d t sc' :
+  wf d ->
+  rebuild {| d_schema := <[t := sc']> (d_schema d); d_tables := d_tables d |}
+  = {| d_schema := <[t := sc']> (d_schema d); d_tables := <[t := rebuild_table sc' (d_tables d !! t)]> (d_tables d) |}.
+Proof.
+  intros Hw. unfold rebuild at 1. simpl. f_equal. apply map_eq. intros t'. rewrite map_lookup_imap.
+  destruct (decide (t' = t)) as [->|Hne].
+  - rewrite !lookup_insert. reflexivity.
+  - rewrite !lookup_insert_ne by auto. destruct (d_schema d !! t') as [sc|] eqn:E; simpl.
+    + destruct (wf_table_of_schema _ _ _ Hw E) as (tb & Ht & Hwt). rewrite Ht. f_equal. apply rebuild_table_id. exact Hwt.
+    + symmetry. destruct (d_tables d !! t') as [tb|] eqn:Et; [|reflexivity].
+      destruct (wf_schema_of_table _ _ _ Hw Et) as (sc & Hs & _). congruence.
+Qed.
+
+Lemma rebuild_delete d t :
+  wf d ->
+  rebuild {| d_schema := delete t (d_schema d); d_tables := d_tables d |}
+  = {| d_schema := delete t (d_schema d); d_tables := delete t (d_tables d) |}.
+Proof.
+  intros Hw. unfold rebuild at 1. simpl. f_equal. apply map_eq. intros t'. rewrite map_lookup_imap.
+  destruct (decide (t' = t)) as [->|Hne].
+  - rewrite !lookup_delete. reflexivity.
+  - rewrite !lookup_delete_ne by auto. destruct (d_schema d !! t') as [sc|] eqn:E; simpl.
+    + destruct (wf_table_of_schema _ _ _ Hw E) as (tb & Ht & Hwt). rewrite Ht. f_equal. apply rebuild_table_id. exact Hwt.
+    + symmetry. destruct (d_tables d !! t') as [tb|] eqn:Et; [|reflexivity].
+      destruct (wf_schema_of_table _ _ _ Hw Et) as (sc & Hs & _). congruence.
+Qed.
+
+(* columns of the rebuilt table for the three shapes of change *)
+Lemma rebuild_table_del_col sc tb c :
+  wf_table sc tb ->
+  rebuild_table (delete c sc) (Some tb) = {| t_rows := t_rows tb; t_cols := delete c (t_cols tb) |}.
+Proof.
+  intros Hw. rewrite <- (rebuild_table_id (delete c sc) {| t_rows := t_rows tb; t_cols := delete c (t_cols tb) |})
+    by (apply wf_table_delete; exact Hw).
+  apply table_ext; [reflexivity|]. intros c'. rewrite !rebuild_table_lookup. simpl.
+  destruct (decide (c' = c)) as [->|Hne]; [rewrite !lookup_delete; reflexivity|].
+  rewrite !lookup_delete_ne by auto. reflexivity.
+Qed.
+
+Lemma rebuild_table_add_col sc tb c ci :
+  wf_table sc tb -> t_cols tb !! c = None ->
+  rebuild_table (<[c := ci]> sc) (Some tb) = {| t_rows := t_rows tb; t_cols := <[c := new_col ci]> (t_cols tb) |}.
+Proof.
+  intros Hw Hc. apply table_ext; [reflexivity|]. intros c'. rewrite rebuild_table_lookup. simpl.
+  destruct (decide (c' = c)) as [->|Hne].
+  - rewrite !lookup_insert, Hc. reflexivity.
+  - rewrite !lookup_insert_ne by auto. apply rebuild_cols_wf. exact Hw.
+Qed.
+
+Lemma rebuild_table_none sc : rebuild_table sc None = {| t_rows := ∅; t_cols := new_col <$> sc |}.
+Proof.
+  apply table_ext; [reflexivity|]. intros c. rewrite rebuild_table_lookup. simpl. rewrite lookup_fmap, lookup_empty.
+  destruct (sc !! c); reflexivity.
+Qed.
+(* ---------------------------------------------------------------------------------------------------------- *)
+(* schema actions *)
+Local Opaque rebuild.
+
+Definition mk_doc (sch : schema) (tabs : gmap name table) : doc := {| d_schema := sch; d_tables := tabs |}.
+
+Lemma exec_add_column ord d t c ci u p st' :
+  wf d ->
+  exec_all (MState d u p None) (steps_of ord d (AddColumn t c ci)) = Some st' ->
+  exists tb sc, d_tables d !! t = Some tb /\ d_schema d !! t = Some sc /\ t_cols tb !! c = None /\
+    st' = MState (mk_doc (<[t := <[c := ci]> sc]> (d_schema d))
+                         (<[t := Table (t_rows tb) (<[c := new_col ci]> (t_cols tb))]> (d_tables d)))
+                 (u ++ [RemoveColumn t c]) p None.
+Proof.
+  intros Hw. unfold steps_of. destruct (d_tables d !! t) as [tb|] eqn:Ht; [|discriminate].
+  destruct (d_schema d !! t) as [sc|] eqn:Hs; [|discriminate].
+  destruct (bool_decide (is_Some (t_cols tb !! c))) eqn:Ec; [discriminate|].
+  apply bool_decide_eq_false in Ec. assert (Hc : t_cols tb !! c = None) by (destruct (t_cols tb !! c); [exfalso; eauto|reflexivity]).
+  cbn. intros [= <-]. exists tb, sc. split; [done|]. split; [done|]. split; [done|].
+  rewrite (rebuild_one d t _ Hw), Ht. rewrite (rebuild_table_add_col sc tb c ci); [reflexivity| |exact Hc].
+  eapply wf_lookup; eauto.
+Qed.
+
+Definition nondefault_rows (tb : table) (col : column) : list rowid :=
+  filter (fun r => cget col r ≠ cdefault col) (rows_list tb).
+
+Lemma exec_remove_column ord d t c u p st' :
+  wf d ->
+  exec_all (MState d u p None) (steps_of ord d (RemoveColumn t c)) = Some st' ->
+  exists tb sc col ci, d_tables d !! t = Some tb /\ d_schema d !! t = Some sc /\
+    t_cols tb !! c = Some col /\ sc !! c = Some ci /\
+    ms_doc st' = mk_doc (<[t := delete c sc]> (d_schema d))
+                        (<[t := Table (t_rows tb) (delete c (t_cols tb))]> (d_tables d)) /\
+    ms_saved st' = None /\
+    let nd := nondefault_rows tb col in
+    ((nd = [] /\ ms_undo st' = u ++ [AddColumn t c ci] /\ ms_pending st' = p) \/
+     (nd ≠ [] /\ ci_isformula (c_info col) = false /\ ms_pending st' = p /\
+      ms_undo st' = u ++ [BulkUpdateRecord t nd [(c, map (cget col) nd)]; AddColumn t c ci]) \/
+     (nd ≠ [] /\ ci_isformula (c_info col) = true /\ ms_undo st' = u ++ [AddColumn t c ci] /\
+      exists dl, dl ≠ [] /\ ms_pending st' = p ++ dl)).
+Proof.
+  intros Hw. unfold steps_of. destruct (d_tables d !! t) as [tb|] eqn:Ht; [|discriminate].
+  destruct (d_schema d !! t) as [sc|] eqn:Hs; [|discriminate].
+  destruct (t_cols tb !! c) as [col|] eqn:Hc; [|discriminate].
+  destruct (sc !! c) as [ci|] eqn:Hsc; [|discriminate].
+  assert (Hwt : wf_table sc tb) by (eapply wf_lookup; eauto).
+  assert (Hdoc : rebuild {| d_schema := <[t := delete c sc]> (d_schema d); d_tables := d_tables d |}
+                 = mk_doc (<[t := delete c sc]> (d_schema d)) (<[t := Table (t_rows tb) (delete c (t_cols tb))]> (d_tables d))).
+  { rewrite (rebuild_one d t _ Hw), Ht, (rebuild_table_del_col sc tb c Hwt). reflexivity. }
+  fold (nondefault_rows tb col). intros H. exists tb, sc, col, ci. do 4 (split; [done|]).
+  destruct (nondefault_rows tb col) as [|r0 nd] eqn:End.
+  - cbn in H. injection H as <-. cbn. rewrite Hdoc. do 2 (split; [done|]). left. done.
+  - destruct (ci_isformula (c_info col)) eqn:Ef; cbn in H; injection H as <-; cbn; rewrite Hdoc; do 2 (split; [done|]); right.
+    + right. split; [done|]. split; [done|]. split; [done|]. eexists. split; [|reflexivity]. done.
+    + left. split; [done|]. split; [done|]. split; [done|]. rewrite <- app_assoc. done.
+Qed.
+
+Lemma rebuild_table_rename_col sc tb c c' ci :
+  wf_table sc tb -> t_cols tb !! c' = None ->
+  rebuild_table (<[c' := ci]> (delete c sc)) (Some tb)
+  = {| t_rows := t_rows tb; t_cols := <[c' := new_col ci]> (delete c (t_cols tb)) |}.
+Proof.
+  intros Hw Hc'. apply table_ext; [reflexivity|]. intros c''. rewrite rebuild_table_lookup. simpl.
+  destruct (decide (c'' = c')) as [->|Hne'].
+  - rewrite !lookup_insert, Hc'. reflexivity.
+  - rewrite !lookup_insert_ne by auto. destruct (decide (c'' = c)) as [->|Hne].
+    + rewrite !lookup_delete. reflexivity.
+    + rewrite !lookup_delete_ne by auto. apply rebuild_cols_wf. exact Hw.
+Qed.
+
+Lemma exec_rename_column ord d t c c' u p st' :
+  wf d ->
+  exec_all (MState d u p None) (steps_of ord d (RenameColumn t c c')) = Some st' ->
+  exists tb sc col, d_tables d !! t = Some tb /\ d_schema d !! t = Some sc /\
+    t_cols tb !! c = Some col /\ t_cols tb !! c' = None /\
+    st' = MState (mk_doc (<[t := <[c' := c_info col]> (delete c sc)]> (d_schema d))
+                         (<[t := Table (t_rows tb) (<[c' := col]> (delete c (t_cols tb)))]> (d_tables d)))
+                 (u ++ [RenameColumn t c' c]) p None.
+Proof.
+  intros Hw. unfold steps_of. destruct (d_tables d !! t) as [tb|] eqn:Ht; [|discriminate].
+  destruct (d_schema d !! t) as [sc|] eqn:Hs; [|discriminate].
+  destruct (t_cols tb !! c) as [col|] eqn:Hc; [|discriminate].
+  destruct (sc !! c) as [ci|] eqn:Hsc; [|discriminate].
+  destruct (bool_decide (is_Some (t_cols tb !! c'))) eqn:Ec; [discriminate|].
+  apply bool_decide_eq_false in Ec. assert (Hc' : t_cols tb !! c' = None) by (destruct (t_cols tb !! c'); [exfalso; eauto|reflexivity]).
+  assert (Hwt : wf_table sc tb) by (eapply wf_lookup; eauto).
+  assert (Hci : ci = c_info col) by (destruct (wf_table_col _ _ _ _ Hwt Hc); congruence). subst ci.
+  cbn. intros [= <-]. exists tb, sc, col. do 4 (split; [done|]).
+  rewrite (rebuild_one d t _ Hw), Ht, (rebuild_table_rename_col sc tb c c' _ Hwt Hc').
+  f_equal. unfold upd_table, mk_doc. cbn. f_equal. rewrite alter_insert. f_equal.
+  unfold upd_col. cbn. f_equal. rewrite alter_insert. f_equal. unfold set_data, new_col. cbn. apply column_eta.
+Qed.
+
+Definition modified_col (tb : table) (col : column) (ci' : colinfo) : column :=
+  cset_list (new_col ci') (map (fun r => (r, cget col r)) (rows_list tb)).
+
+Lemma exec_modify_column ord d t c m u p st' :
+  wf d ->
+  exec_all (MState d u p None) (steps_of ord d (ModifyColumn t c m)) = Some st' ->
+  exists tb sc col, d_tables d !! t = Some tb /\ d_schema d !! t = Some sc /\ t_cols tb !! c = Some col /\
+    let ci' := upd_info (c_info col) m in
+    (ci' = c_info col /\ st' = MState d u p None) \/
+    (ci' ≠ c_info col /\
+     st' = MState (mk_doc (<[t := <[c := ci']> sc]> (d_schema d))
+                          (<[t := Table (t_rows tb) (<[c := modified_col tb col ci']> (t_cols tb))]> (d_tables d)))
+                  (u ++ [ModifyColumn t c (undo_mod (c_info col) m)]) p None).
+Proof.
+  intros Hw. unfold steps_of. destruct (d_tables d !! t) as [tb|] eqn:Ht; [|discriminate].
+  destruct (d_schema d !! t) as [sc|] eqn:Hs; [|discriminate].
+  destruct (t_cols tb !! c) as [col|] eqn:Hc; [|discriminate].
+  destruct (sc !! c) as [ci|] eqn:Hsc; [|discriminate].
+  assert (Hwt : wf_table sc tb) by (eapply wf_lookup; eauto).
+  assert (Hci : ci = c_info col) by (destruct (wf_table_col _ _ _ _ Hwt Hc); congruence). subst ci.
+  destruct (bool_decide (upd_info (c_info col) m = c_info col)) eqn:E; intros H; exists tb, sc, col; do 3 (split; [done|]); cbn.
+  - apply bool_decide_eq_true in E. cbn in H. injection H as <-. left. done.
+  - apply bool_decide_eq_false in E. right. split; [done|].
+    set (d1 := mk_doc (<[t := delete c sc]> (d_schema d)) (<[t := Table (t_rows tb) (delete c (t_cols tb))]> (d_tables d))).
+    assert (Hw1 : wf d1) by (apply wf_tset; [exact Hw|apply wf_table_delete; exact Hwt]).
+    cbn [app exec_all exec_step] in H. unfold on_doc in H. cbn [ms_doc ms_undo ms_pending ms_saved d_tables] in H.
+    rewrite (rebuild_one d t _ Hw), Ht, (rebuild_table_del_col sc tb c Hwt) in H. fold d1 in H.
+    cbn [d_tables] in H.
+    replace (<[t := <[c := upd_info (c_info col) m]> (delete c sc)]> (d_schema d))
+      with (<[t := <[c := upd_info (c_info col) m]> (delete c sc)]> (d_schema d1)) in H
+      by (unfold d1, mk_doc; cbn; apply insert_insert).
+    replace ({| d_schema := <[t := <[c := upd_info (c_info col) m]> (delete c sc)]> (d_schema d1);
+                d_tables := <[t := {| t_rows := t_rows tb; t_cols := delete c (t_cols tb) |}]> (d_tables d) |})
+      with ({| d_schema := <[t := <[c := upd_info (c_info col) m]> (delete c sc)]> (d_schema d1);
+               d_tables := d_tables d1 |}) in H by reflexivity.
+    rewrite (rebuild_one d1 t _ Hw1) in H.
+    assert (Ht1 : d_tables d1 !! t = Some {| t_rows := t_rows tb; t_cols := delete c (t_cols tb) |}) by (unfold d1; cbn; apply lookup_insert).
+    rewrite Ht1 in H. rewrite (rebuild_table_add_col (delete c sc) _ c _) in H;
+      [|apply wf_table_delete; exact Hwt|cbn; apply lookup_delete].
+    replace (map (fun r => MSetCell t c r (cget col r)) (rows_list tb))
+      with (map (fun rv : rowid * val => MSetCell t c rv.1 rv.2) (map (fun r => (r, cget col r)) (rows_list tb))) in H
+      by (rewrite map_map; reflexivity).
+    rewrite exec_set_cells in H. cbn in H. injection H as <-. f_equal.
+    unfold upd_table, mk_doc, d1. cbn. f_equal.
+    + rewrite insert_insert, insert_delete_insert. reflexivity.
+    + rewrite alter_insert, insert_insert. f_equal. unfold upd_col. cbn. f_equal.
+      rewrite alter_insert, insert_delete_insert. reflexivity.
+Qed.
+
+Lemma exec_add_table ord d t cols u p st' :
+  wf d ->
+  exec_all (MState d u p None) (steps_of ord d (AddTable t cols)) = Some st' ->
+  d_tables d !! t = None /\
+  st' = MState (mk_doc (<[t := list_to_map cols]> (d_schema d))
+                       (<[t := Table ∅ (new_col <$> list_to_map cols)]> (d_tables d)))
+               (u ++ [RemoveTable t]) p None.
+Proof.
+  intros Hw. unfold steps_of. destruct (d_tables d !! t) as [tb|] eqn:Ht; [discriminate|].
+  cbn. intros [= <-]. split; [done|]. rewrite (rebuild_one d t _ Hw), Ht, rebuild_table_none. reflexivity.
+Qed.
+
+Definition remove_table_undo (ord : name -> list name) (t : name) (tb : table) (sc : gmap name colinfo) : list action :=
+  match rows_list tb with
+  | [] => []
+  | _ => [BulkAddRecord t (rows_list tb) (col_values tb (cols_in_order ord t tb) (rows_list tb))]
+  end ++ [AddTable t (map_to_list sc)].
+
+Lemma exec_remove_table ord d t u p st' :
+  wf d ->
+  exec_all (MState d u p None) (steps_of ord d (RemoveTable t)) = Some st' ->
+  exists tb sc, d_tables d !! t = Some tb /\ d_schema d !! t = Some sc /\
+    st' = MState (mk_doc (delete t (d_schema d)) (delete t (d_tables d))) (u ++ remove_table_undo ord t tb sc) p None.
+Proof.
+  intros Hw. unfold steps_of. destruct (d_tables d !! t) as [tb|] eqn:Ht; [|discriminate].
+  destruct (d_schema d !! t) as [sc|] eqn:Hs; [|discriminate].
+  intros H. exists tb, sc. do 2 (split; [done|]). unfold remove_table_undo.
+  destruct (rows_list tb) as [|r0 rows] eqn:Er; cbn in H; injection H as <-; rewrite (rebuild_delete d t Hw).
+  - reflexivity.
+  - rewrite <- app_assoc. reflexivity.
+Qed.
+
+Lemma rebuild_rename_table d t t' sc :
+  wf d -> d_tables d !! t' = None ->
+  rebuild {| d_schema := <[t' := sc]> (delete t (d_schema d)); d_tables := d_tables d |}
+  = {| d_schema := <[t' := sc]> (delete t (d_schema d));
+       d_tables := <[t' := rebuild_table sc None]> (delete t (d_tables d)) |}.
+Proof.
+  intros Hw Ht'. Local Transparent rebuild. unfold rebuild at 1. Local Opaque rebuild. simpl. f_equal.
+  apply map_eq. intros t''. rewrite map_lookup_imap.
+  destruct (decide (t'' = t')) as [->|Hne'].
+  - rewrite !lookup_insert. simpl. rewrite Ht'. reflexivity.
+  - rewrite !lookup_insert_ne by auto. destruct (decide (t'' = t)) as [->|Hne].
+    + rewrite !lookup_delete. reflexivity.
+    + rewrite !lookup_delete_ne by auto. destruct (d_schema d !! t'') as [sc''|] eqn:E; simpl.
+      * destruct (wf_table_of_schema _ _ _ Hw E) as (tb & Ht & Hwt). rewrite Ht. f_equal. apply rebuild_table_id. exact Hwt.
+      * symmetry. destruct (d_tables d !! t'') as [tb|] eqn:Et; [|reflexivity].
+        destruct (wf_schema_of_table _ _ _ Hw Et) as (sc0 & Hs & _). congruence.
+Qed.
+
+Definition copy_cols (tb : table) (cs : list name) (tb' : table) : table :=
+  foldl (fun tb' c => match t_cols tb !! c with
+                      | Some col => upd_col c (set_data (c_data col)) tb'
+                      | None => tb' end) tb' cs.
+
+Lemma exec_copy_cols t' tb cs : forall st rest,
+  exec_all st (omap (fun c => (fun col => MSetData t' c (c_data col)) <$> t_cols tb !! c) cs ++ rest)
+  = exec_all (on_doc (upd_table t' (copy_cols tb cs)) st) rest.
+Proof.
+  induction cs as [|c cs IH]; intros st rest; simpl.
+  - f_equal. symmetry. apply on_doc_upd_table_id. reflexivity.
+  - destruct (t_cols tb !! c) as [col|] eqn:E; simpl.
+    + rewrite IH. f_equal. rewrite on_doc_on_doc. unfold on_doc. simpl. f_equal. rewrite upd_table_compose.
+      apply upd_table_ext. intros tb0 _. unfold copy_cols. simpl. rewrite E. reflexivity.
+    + rewrite IH. f_equal. unfold on_doc. f_equal. apply upd_table_ext. intros tb0 _. unfold copy_cols. simpl. rewrite E. reflexivity.
+Qed.
+
+Lemma copy_cols_rows tb cs : forall tb', t_rows (copy_cols tb cs tb') = t_rows tb'.
+Proof.
+  induction cs as [|c cs IH]; intros tb'; [reflexivity|]. unfold copy_cols in *. simpl.
+  destruct (t_cols tb !! c); rewrite IH; reflexivity.
+Qed.
+
+Lemma copy_cols_lookup tb cs c : forall tb',
+  t_cols (copy_cols tb cs tb') !! c
+  = match t_cols tb !! c with
+    | Some col => if decide (c ∈ cs) then set_data (c_data col) <$> t_cols tb' !! c else t_cols tb' !! c
+    | None => t_cols tb' !! c
+    end.
+Proof.
+  induction cs as [|c0 cs IH]; intros tb'.
+  - unfold copy_cols. simpl. destruct (t_cols tb !! c); [|reflexivity].
+    destruct (decide (c ∈ [])) as [H|]; [inversion H|reflexivity].
+  - unfold copy_cols in *. simpl. destruct (t_cols tb !! c0) as [col0|] eqn:E0.
+    + rewrite IH. destruct (decide (c = c0)) as [->|Hne].
+      * rewrite E0. simpl. rewrite lookup_alter. rewrite (decide_True (P := c0 ∈ c0 :: cs)) by left.
+        destruct (decide (c0 ∈ cs)); [|reflexivity]. destruct (t_cols tb' !! c0); reflexivity.
+      * simpl. rewrite lookup_alter_ne by auto. destruct (t_cols tb !! c) as [col|]; [|reflexivity].
+        destruct (decide (c ∈ cs)) as [Hin|Hnin].
+        -- rewrite (decide_True (P := c ∈ c0 :: cs)) by (right; exact Hin). reflexivity.
+        -- rewrite (decide_False (P := c ∈ c0 :: cs)); [reflexivity|]. intros H. apply elem_of_cons in H as [?|?]; contradiction.
+    + rewrite IH. destruct (t_cols tb !! c) as [col|] eqn:E; [|reflexivity].
+      assert (c ≠ c0) by congruence. destruct (decide (c ∈ cs)) as [Hin|Hnin].
+      * rewrite (decide_True (P := c ∈ c0 :: cs)) by (right; exact Hin). reflexivity.
+      * rewrite (decide_False (P := c ∈ c0 :: cs)); [reflexivity|]. intros H'. apply elem_of_cons in H' as [?|?]; contradiction.
+Qed.
+
+Lemma cols_in_order_complete ord t tb c col : t_cols tb !! c = Some col -> c ∈ cols_in_order ord t tb.
+Proof.
+  intros H. unfold cols_in_order. apply elem_of_app. destruct (decide (c ∈ ord t)) as [Hin|Hnin].
+  - left. apply elem_of_list_filter. split; [eexists; exact H|exact Hin].
+  - right. apply elem_of_list_filter. split; [exact Hnin|]. apply elem_of_list_fmap. exists (c, col). split; [reflexivity|].
+    apply elem_of_map_to_list. exact H.
+Qed.
+
+Lemma cols_in_order_sound ord t tb c : c ∈ cols_in_order ord t tb -> is_Some (t_cols tb !! c).
+Proof.
+  unfold cols_in_order. intros H. apply elem_of_app in H as [H|H]; apply elem_of_list_filter in H as [H1 H2]; [exact H1|].
+  apply elem_of_list_fmap in H2 as ([c' col] & -> & H2). apply elem_of_map_to_list in H2. eexists. exact H2.
+Qed.
+
+Lemma exec_rename_table ord d t t' u p st' :
+  wf d ->
+  exec_all (MState d u p None) (steps_of ord d (RenameTable t t')) = Some st' ->
+  exists tb sc, d_tables d !! t = Some tb /\ d_schema d !! t = Some sc /\ d_tables d !! t' = None /\
+    st' = MState (mk_doc (<[t' := sc]> (delete t (d_schema d))) (<[t' := tb]> (delete t (d_tables d))))
+                 (u ++ [RenameTable t' t]) p None.
+Proof.
+  intros Hw. unfold steps_of. destruct (d_tables d !! t) as [tb|] eqn:Ht; [|discriminate].
+  destruct (d_schema d !! t) as [sc|] eqn:Hs; [|discriminate].
+  destruct (d_tables d !! t') as [tb'|] eqn:Ht'; [discriminate|].
+  assert (Hwt : wf_table sc tb) by (eapply wf_lookup; eauto).
+  cbn [app exec_all exec_step]. unfold on_doc. cbn [ms_doc ms_undo ms_pending ms_saved d_tables].
+  rewrite (rebuild_rename_table d t t' sc Hw Ht'), rebuild_table_none.
+  rewrite exec_copy_cols. cbn. intros [= <-]. exists tb, sc. do 3 (split; [done|]). f_equal.
+  unfold upd_table, mk_doc. cbn. f_equal. rewrite !alter_insert. f_equal.
+  apply table_ext; [rewrite copy_cols_rows; reflexivity|]. intros c. rewrite copy_cols_lookup. cbn.
+  rewrite lookup_fmap. destruct (t_cols tb !! c) as [col|] eqn:E.
+  - rewrite decide_True by (eapply cols_in_order_complete; exact E).
+    destruct (wf_table_col _ _ _ _ Hwt E) as [-> _]. cbn. f_equal. unfold set_data, new_col. cbn. apply column_eta.
+  - rewrite (wf_table_col_none _ _ _ Hwt E). reflexivity.
+Qed.
+(* ---------------------------------------------------------------------------------------------------------- *)
+(* the same closed forms in the forward direction: when the asserts of the source hold, the action runs *)
+Local Opaque rebuild.
+
+Lemma is_Some_false {A} (o : option A) : o = None -> bool_decide (is_Some o) = false.
+Proof. intros ->. apply bool_decide_eq_false. intros [? ?]. discriminate. Qed.
+
+Lemma exec_update_ok ord d t tb rows vals u p s :
+  d_tables d !! t = Some tb -> Forall (fun r => r ∈ t_rows tb) rows -> Forall (known tb) vals ->
+  exec_all (MState d u p s) (steps_of ord d (BulkUpdateRecord t rows vals))
+  = Some (MState (tset t (write_cols rows vals tb) d) (u ++ [BulkUpdateRecord t rows (update_undo tb rows vals)]) p s).
+Proof.
+  intros Ht Hr Hk. unfold steps_of. rewrite Ht. rewrite bool_decide_eq_true_2 by exact Hr. unfold update_steps.
+  rewrite (known_prefix_all _ _ Hk). rewrite bool_decide_eq_true_2 by reflexivity.
+  rewrite exec_write_cols. simpl. unfold on_doc. simpl. rewrite (upd_table_tset _ _ _ _ Ht). reflexivity.
+Qed.
+
+Lemma exec_add_ok ord d t tb rows vals u p s :
+  d_tables d !! t = Some tb -> Forall (fun r => r ∉ t_rows tb) rows -> Forall (known tb) vals ->
+  exec_all (MState d u p s) (steps_of ord d (BulkAddRecord t rows vals))
+  = Some (MState (tset t (write_cols rows vals (set_rows (fun rs => list_to_set rows ∪ rs) tb)) d)
+                 (u ++ [BulkRemoveRecord t rows]) p s).
+Proof.
+  intros Ht Hr Hk. unfold steps_of. rewrite Ht. rewrite bool_decide_eq_false_2.
+  2: { intros H. apply Exists_exists in H as (r & Hin & Hmem). rewrite Forall_forall in Hr. exact (Hr r Hin Hmem). }
+  unfold add_records_steps. simpl. rewrite (known_prefix_all _ _ Hk). rewrite bool_decide_eq_true_2 by reflexivity.
+  rewrite exec_add_rows, app_nil_r. rewrite <- (app_nil_r (concat _)). rewrite exec_write_cols. simpl.
+  unfold on_doc. simpl. rewrite upd_table_compose, (upd_table_tset _ _ _ _ Ht). reflexivity.
+Qed.
+
+Lemma exec_remove_ok ord d t tb rows u p s :
+  d_tables d !! t = Some tb ->
+  let rows' := filter (fun r => r ∈ t_rows tb) rows in
+  exec_all (MState d u p s) (steps_of ord d (BulkRemoveRecord t rows))
+  = Some (match rows' with
+          | [] => MState d u p s
+          | _ => MState (tset t (remove_tb ord t tb rows') d) (u ++ [remove_undo t tb (cols_in_order ord t tb) rows']) p s
+          end).
+Proof.
+  intros Ht. unfold steps_of. rewrite Ht. simpl.
+  destruct (filter (fun r => r ∈ t_rows tb) rows) as [|r0 rows'] eqn:E; [reflexivity|].
+  rewrite exec_del_rows, exec_write_cols. simpl. unfold on_doc. simpl.
+  rewrite upd_table_compose, (upd_table_tset _ _ _ _ Ht). reflexivity.
+Qed.
+
+Lemma exec_add_column_ok ord d t c ci tb sc u p :
+  wf d -> d_tables d !! t = Some tb -> d_schema d !! t = Some sc -> t_cols tb !! c = None ->
+  exec_all (MState d u p None) (steps_of ord d (AddColumn t c ci))
+  = Some (MState (mk_doc (<[t := <[c := ci]> sc]> (d_schema d))
+                         (<[t := Table (t_rows tb) (<[c := new_col ci]> (t_cols tb))]> (d_tables d)))
+                 (u ++ [RemoveColumn t c]) p None).
+Proof.
+  intros Hw Ht Hs Hc. unfold steps_of. rewrite Ht, Hs, (is_Some_false _ Hc). cbn.
+  rewrite (rebuild_one d t _ Hw), Ht. rewrite (rebuild_table_add_col sc tb c ci); [reflexivity| |exact Hc].
+  eapply wf_lookup; eauto.
+Qed.
+
+Lemma exec_rename_column_ok ord d t c c' tb sc col u p :
+  wf d -> d_tables d !! t = Some tb -> d_schema d !! t = Some sc ->
+  t_cols tb !! c = Some col -> t_cols tb !! c' = None ->
+  exec_all (MState d u p None) (steps_of ord d (RenameColumn t c c'))
+  = Some (MState (mk_doc (<[t := <[c' := c_info col]> (delete c sc)]> (d_schema d))
+                         (<[t := Table (t_rows tb) (<[c' := col]> (delete c (t_cols tb)))]> (d_tables d)))
+                 (u ++ [RenameColumn t c' c]) p None).
+Proof.
+  intros Hw Ht Hs Hc Hc'. assert (Hwt : wf_table sc tb) by (eapply wf_lookup; eauto).
+  destruct (wf_table_col _ _ _ _ Hwt Hc) as [Hsc _].
+  unfold steps_of. rewrite Ht, Hs, Hc, Hsc, (is_Some_false _ Hc'). cbn.
+  rewrite (rebuild_one d t _ Hw), Ht, (rebuild_table_rename_col sc tb c c' _ Hwt Hc').
+  f_equal. f_equal. unfold upd_table, mk_doc. cbn. f_equal. rewrite alter_insert. f_equal.
+  unfold upd_col. cbn. f_equal. rewrite alter_insert. f_equal. unfold set_data, new_col. cbn. apply column_eta.
+Qed.
+
+Lemma exec_add_table_ok ord d t cols u p :
+  wf d -> d_tables d !! t = None ->
+  exec_all (MState d u p None) (steps_of ord d (AddTable t cols))
+  = Some (MState (mk_doc (<[t := list_to_map cols]> (d_schema d))
+                         (<[t := Table ∅ (new_col <$> list_to_map cols)]> (d_tables d)))
+                 (u ++ [RemoveTable t]) p None).
+Proof.
+  intros Hw Ht. unfold steps_of. rewrite Ht. cbn. rewrite (rebuild_one d t _ Hw), Ht, rebuild_table_none. reflexivity.
+Qed.
+
+Lemma exec_remove_table_ok ord d t tb sc u p :
+  wf d -> d_tables d !! t = Some tb -> d_schema d !! t = Some sc ->
+  exec_all (MState d u p None) (steps_of ord d (RemoveTable t))
+  = Some (MState (mk_doc (delete t (d_schema d)) (delete t (d_tables d))) (u ++ remove_table_undo ord t tb sc) p None).
+Proof.
+  intros Hw Ht Hs. unfold steps_of. rewrite Ht, Hs. unfold remove_table_undo.
+  destruct (rows_list tb) as [|r0 rows] eqn:Er; cbn; rewrite (rebuild_delete d t Hw); [reflexivity|].
+  rewrite <- app_assoc. reflexivity.
+Qed.
+
+Lemma exec_remove_column_ok ord d t c tb sc col u p :
+  wf d -> d_tables d !! t = Some tb -> d_schema d !! t = Some sc -> t_cols tb !! c = Some col ->
+  exists st', exec_all (MState d u p None) (steps_of ord d (RemoveColumn t c)) = Some st' /\
+    ms_doc st' = mk_doc (<[t := delete c sc]> (d_schema d))
+                        (<[t := Table (t_rows tb) (delete c (t_cols tb))]> (d_tables d)).
+Proof.
+  intros Hw Ht Hs Hc. assert (Hwt : wf_table sc tb) by (eapply wf_lookup; eauto).
+  destruct (wf_table_col _ _ _ _ Hwt Hc) as [Hsc _].
+  assert (Hdoc : rebuild {| d_schema := <[t := delete c sc]> (d_schema d); d_tables := d_tables d |}
+                 = mk_doc (<[t := delete c sc]> (d_schema d)) (<[t := Table (t_rows tb) (delete c (t_cols tb))]> (d_tables d))).
+  { rewrite (rebuild_one d t _ Hw), Ht, (rebuild_table_del_col sc tb c Hwt). reflexivity. }
+  unfold steps_of. rewrite Ht, Hs, Hc, Hsc. fold (nondefault_rows tb col).
+  destruct (nondefault_rows tb col) as [|r0 nd]; [|destruct (ci_isformula (c_info col))];
+    cbn; rewrite Hdoc; eexists; (split; [reflexivity|reflexivity]).
+Qed.
+
+Lemma exec_modify_column_ok ord d t c m tb sc col u p :
+  wf d -> d_tables d !! t = Some tb -> d_schema d !! t = Some sc -> t_cols tb !! c = Some col ->
+  let ci' := upd_info (c_info col) m in
+  exec_all (MState d u p None) (steps_of ord d (ModifyColumn t c m))
+  = Some (if decide (ci' = c_info col) then MState d u p None
+          else MState (mk_doc (<[t := <[c := ci']> sc]> (d_schema d))
+                              (<[t := Table (t_rows tb) (<[c := modified_col tb col ci']> (t_cols tb))]> (d_tables d)))
+                      (u ++ [ModifyColumn t c (undo_mod (c_info col) m)]) p None).
+Proof.
+  intros Hw Ht Hs Hc ci'.
+  destruct (exec_all (MState d u p None) (steps_of ord d (ModifyColumn t c m))) as [st'|] eqn:E.
+  - destruct (exec_modify_column _ _ _ _ _ _ _ _ Hw E) as (tb0 & sc0 & col0 & Ht0 & Hs0 & Hc0 & H).
+    assert (tb0 = tb) by congruence. subst tb0. assert (sc0 = sc) by congruence. subst sc0.
+    assert (col0 = col) by congruence. subst col0. fold ci' in H.
+    destruct H as [[H1 ->]|[H1 ->]]; [rewrite decide_True by exact H1|rewrite decide_False by exact H1]; reflexivity.
+  - exfalso. revert E. assert (Hwt : wf_table sc tb) by (eapply wf_lookup; eauto).
+    destruct (wf_table_col _ _ _ _ Hwt Hc) as [Hsc _]. unfold steps_of. rewrite Ht, Hs, Hc, Hsc.
+    destruct (bool_decide (upd_info (c_info col) m = c_info col)); [discriminate|].
+    cbn [app exec_all exec_step].
+    replace (map (fun r => MSetCell t c r (cget col r)) (rows_list tb))
+      with (map (fun rv : rowid * val => MSetCell t c rv.1 rv.2) (map (fun r => (r, cget col r)) (rows_list tb)))
+      by (rewrite map_map; reflexivity).
+    rewrite exec_set_cells. discriminate.
+Qed.
+
+Lemma exec_rename_table_ok ord d t t' tb sc u p :
+  wf d -> d_tables d !! t = Some tb -> d_schema d !! t = Some sc -> d_tables d !! t' = None ->
+  exec_all (MState d u p None) (steps_of ord d (RenameTable t t'))
+  = Some (MState (mk_doc (<[t' := sc]> (delete t (d_schema d))) (<[t' := tb]> (delete t (d_tables d))))
+                 (u ++ [RenameTable t' t]) p None).
+Proof.
+  intros Hw Ht Hs Ht'.
+  destruct (exec_all (MState d u p None) (steps_of ord d (RenameTable t t'))) as [st'|] eqn:E.
+  - destruct (exec_rename_table _ _ _ _ _ _ _ Hw E) as (tb0 & sc0 & Ht0 & Hs0 & _ & ->). congruence.
+  - exfalso. revert E. unfold steps_of. rewrite Ht, Hs, Ht'. cbn [app exec_all exec_step].
+    rewrite exec_copy_cols. discriminate.
+Qed.
